@@ -152,6 +152,9 @@ def make_case(verif_seed, i):
         # fails (an I/O error at close time)
         'files': [rng.randint(1, 3), rng.choice((-1, -1, 0, 1, 2))]
                  if rng.random() < .2 else None,
+        # second opinion: the standard library's PEP 3333 lint wrapper sits
+        # between the gateway and the application
+        'lint': rng.random() < .25,
     }
     return case
 
@@ -338,9 +341,38 @@ def run_case(case):
         req.env['wsgi.input_terminated'] = True
     cons = case['consumer']
     consumer = (cons[0], cons[1]) if cons[0] == 'abort' else (cons[0],)
-    o = call_wsgi(wsgi, req, read_plan=plan, content_length=cl,
+    target = wsgi
+    lint = bool(case.get('lint')) and cl != 'empty' and \
+        case['plan_kind'] != 'none' and \
+        case['consumer'][0] != 'drain_no_close' and \
+        case.get('env_mode') != 'mount_point'   # (the linter indexes PATH_INFO)
+    if lint:
+        # (it also lints the gateway: an empty CONTENT_LENGTH, a read()
+        # returning None and never calling close() are faults of OUR side,
+        # so it is left out there)
+        import warnings
+        from wsgiref.validate import validator
+        warnings.simplefilter('ignore')
+        target = validator(wsgi)
+    o = call_wsgi(target, req, read_plan=plan, content_length=cl,
                   consumer=consumer, trailing=trailing, stamp=stamp,
                   events=events)
+    if lint:
+        o.fired['lint_wrapper'] = 1
+        if isinstance(o.exc, AssertionError):
+            tb = o.exc.__traceback__
+            fn = '?'
+            while tb is not None:
+                if tb.tb_frame.f_code.co_filename.endswith('validate.py') \
+                        and tb.tb_frame.f_code.co_name != 'assert_':
+                    fn = tb.tb_frame.f_code.co_name
+                tb = tb.tb_next
+            r = judge(case, uni, req, o, ml, cl, simfiles, handles)
+            r['violations'].append({
+                'sig': 'W-lint|%s|%s' % (fn, _rsig(case)),
+                'what': 'wsgiref.validate refuses what the application did '
+                        '(%s): %s' % (fn, canon.mask(str(o.exc))[:200])})
+            return r
     return judge(case, uni, req, o, ml, cl, simfiles, handles)
 
 
